@@ -29,11 +29,27 @@ ROLE_PRESERVING = {'abs', '_flip', 'int', 'str', 'f', '__cast__',
                    '_node_from_int', '_decode_node', 'Cudd_NotCond'}
 
 
-def is_triple_source(e):
+def is_triple_table(e, fn=None):
+    """Expression denoting a table node -> (level, LOW, HIGH)."""
+    ch = au.chain(e)
+    if ch and ch[-1] in TRIPLE_TABLES:
+        return True
+    # a local unpacked at position 0 from `<parser>.parse(...)`
+    if fn is not None and isinstance(e, ast.Name):
+        for n in au.walk_no_defs(fn):
+            if isinstance(n, ast.Assign) and isinstance(
+                    n.targets[0], ast.Tuple) and isinstance(
+                        n.value, ast.Call) and au.call_name(
+                            n.value) == 'parse' and n.targets[0].elts and \
+                    au.is_name(n.targets[0].elts[0], e.id):
+                return True
+    return False
+
+
+def is_triple_source(e, fn=None):
     """Expression evaluating to a (level, LOW, HIGH) triple."""
     if isinstance(e, ast.Subscript):
-        ch = au.chain(e.value)
-        if ch and ch[-1] in TRIPLE_TABLES:
+        if is_triple_table(e.value, fn):
             return True
     if isinstance(e, ast.Call) and au.call_name(e) in TRIPLE_CALLS:
         return True
@@ -125,7 +141,7 @@ class Env:
                     elif isinstance(t, (ast.Tuple, ast.List)):
                         for k, x in self._nested(t, v).items():
                             new[k] = x
-            elif is_triple_source(value) and len(elts) == 3:
+            elif is_triple_source(value, self.fn) and len(elts) == 3:
                 for t, r in zip(elts, (None, LOW, HIGH)):
                     if isinstance(t, ast.Name):
                         new[t.id] = r
@@ -148,7 +164,7 @@ class Env:
 
     def _nested(self, t, v):
         out = dict()
-        if is_triple_source(v) and len(t.elts) == 3:
+        if is_triple_source(v, self.fn) and len(t.elts) == 3:
             for x, r in zip(t.elts, (None, LOW, HIGH)):
                 if isinstance(x, ast.Name):
                     out[x.id] = r
@@ -160,9 +176,12 @@ class Env:
         it = node.iter
         # for u, i, v, w in <levels()>
         layout = None
+        if isinstance(it, ast.Name):
+            defs = au.assignments_to(self.fn, it.id)
+            if len(defs) == 1:
+                it = defs[0].value
         name = au.call_name(it) if isinstance(it, ast.Call) else None
-        if name == 'levels' or (isinstance(it, ast.Name)
-                                and it.id == 'levels'):
+        if name == 'levels':
             layout = (None, None, LOW, HIGH)
         if layout and isinstance(t, ast.Tuple) and len(
                 t.elts) == len(layout):
@@ -175,8 +194,7 @@ class Env:
             return
         # for u, (k, v, w) in <triple table>.items()
         if name == 'items' and isinstance(it.func, ast.Attribute):
-            ch = au.chain(it.func.value)
-            if ch and ch[-1] in TRIPLE_TABLES and isinstance(
+            if is_triple_table(it.func.value, self.fn) and isinstance(
                     t, ast.Tuple) and len(t.elts) == 2 and isinstance(
                         t.elts[1], ast.Tuple) and len(
                             t.elts[1].elts) == 3:
